@@ -243,6 +243,25 @@ pub fn worker(w: &mut Worker) {
             }
         }
     }
+    // very many lines: instruction count and line numbers far down, a malformed line in the middle and
+    // at the very end
+    for n in tier.pick(vec![20_000usize], vec![20_000usize, 1_000_000]) {
+        for bad in [None, Some((n / 2, 0usize)), Some((n, 1usize)), Some((n, 3usize))] {
+            if !w.take() {
+                continue;
+            }
+            let cj = json!({"kind": "many-lines", "lines": n, "bad": bad.map(|(l, k)| json!([l, k]))});
+            w.begin(|| cj.clone());
+            let (text, planted) = many_lines(n, bad);
+            match check_text(&text, &planted) {
+                Ok((_, oc)) => w.pass(true, oc),
+                Err((sig, what)) => {
+                    let short: String = what.chars().take(300).collect();
+                    w.fail(&format!("many-lines:{}", sig), &format!("{} lines, malformed line {:?}: {}", n, bad, short), cj)
+                }
+            }
+        }
+    }
     // very long lines (one character class repeated, and a long well-formed line among malformed ones)
     for (n, (unit, planted)) in [
         ("a", None),
@@ -302,7 +321,26 @@ pub fn worker(w: &mut Worker) {
     }
 }
 
+/// n lines cycling through the well-formed pool, optionally one malformed line (1-based line,
+/// index into MALFORMED)
+fn many_lines(n: usize, bad: Option<(usize, usize)>) -> (String, Vec<(usize, &'static str)>) {
+    let mut lines: Vec<&str> = (0..n).map(|i| WELLFORMED[i % WELLFORMED.len()]).collect();
+    let mut planted = vec![];
+    if let Some((l, k)) = bad {
+        lines[l - 1] = MALFORMED[k].1[0];
+        planted.push((l, MALFORMED[k].0));
+    }
+    (lines.join("\n"), planted)
+}
+
 pub fn replay(case: &Value) -> Result<String, String> {
+    if case["kind"].as_str() == Some("many-lines") {
+        let n = case["lines"].as_u64().unwrap_or(1) as usize;
+        let bad = case["bad"].as_array().map(|a| (a[0].as_u64().unwrap_or(1) as usize, a[1].as_u64().unwrap_or(0) as usize));
+        let (text, planted) = many_lines(n, bad);
+        let r = check_text(&text, &planted).map_err(|(s, w)| (s, w.chars().take(300).collect::<String>()));
+        return Ok(format!("oracle: {:?}", r));
+    }
     let text = case["text"].as_str().ok_or("no text")?;
     let planted: Vec<(usize, &'static str)> = case["planted"]
         .as_array()
@@ -323,7 +361,7 @@ pub fn crash_sig(_case: &Value, kind: &str) -> String {
     kind.to_string()
 }
 
-pub const RULE: &str = "enumeration (no duplicates within a phase): planted malformed line (6 kinds x 4-5 spellings) at every position among every choice of well-formed lines (pool of 10), LF and CRLF; pairs of malformed lines; the escape table (a backslash, and a backslash-dollar, followed by each of 18 characters in 6 argument positions (four on command lines, two on pre-processor lines), in the middle of an argument / at the end of the line / before trailing white space / before a comment / before the closing quote, at every line position: only the documented escapes parse, all others are rejected with ControlWithoutValidValue); every sequence of tokens from a pool of 14; lines of 10^4 and 10^5 repeated characters of each class; every text up to the length bound over {a SP \" \\ # = : ! $ { LF CR} (+TAB, e-acute). Oracle: no panic; Ok => one instruction per line with line numbers 1..n, no source tag, blank/comment lines Empty, each line parses alone to the same instruction; Err(kind,k) => 1<=k<=n and line k alone is rejected with the same kind; planted error => that kind and line. Non-trivial: the text contains one of \" \\ # = : !; states = distinct (verdict, error kind, error line, line count) classes, transitions = parse_text calls on whole texts";
+pub const RULE: &str = "enumeration (no duplicates within a phase): planted malformed line (6 kinds x 4-5 spellings) at every position among every choice of well-formed lines (pool of 10), LF and CRLF; pairs of malformed lines; the escape table (a backslash, and a backslash-dollar, followed by each of 18 characters in 6 argument positions (four on command lines, two on pre-processor lines), in the middle of an argument / at the end of the line / before trailing white space / before a comment / before the closing quote, at every line position: only the documented escapes parse, all others are rejected with ControlWithoutValidValue); every sequence of tokens from a pool of 14; lines of 10^4 and 10^5 repeated characters of each class; texts of 20000 (thorough 10^6) lines, well-formed and with a malformed line in the middle / at the end; every text up to the length bound over {a SP \" \\ # = : ! $ { LF CR} (+TAB, e-acute). Oracle: no panic; Ok => one instruction per line with line numbers 1..n, no source tag, blank/comment lines Empty, each line parses alone to the same instruction; Err(kind,k) => 1<=k<=n and line k alone is rejected with the same kind; planted error => that kind and line. Non-trivial: the text contains one of \" \\ # = : !; states = distinct (verdict, error kind, error line, line count) classes, transitions = parse_text calls on whole texts";
 pub const ASSUMPTIONS: &[&str] = &["no !include_files directive in the texts (C14 covers includes)"];
 pub const EXHAUSTIVE: bool = true;
 pub const WALL_CAP_S: (u64, u64) = (50, 1500);
